@@ -26,6 +26,16 @@ def corpus():
     return C.read_corpus(ID)
 
 
+def other_angle_units(lon, lat, k):
+    """the same angles, every third time stored in other units than the frame's default degrees (hour angle / radian,
+    or arcsec): a table's values are physical, whatever unit they are stored in"""
+    if k % 3 == 1:
+        return lon.to(u.hourangle), lat.to(u.rad)
+    if k % 3 == 2:
+        return lon.to(u.arcsec), lat.to(u.arcmin)
+    return lon, lat
+
+
 def divisors(n):
     return [d for d in range(1, n + 1) if n % d == 0]
 
@@ -114,7 +124,7 @@ def build(case):
             n = shape[ec["axis"][0]]
             v = table_values(ec["kind"], n, ec["nonlinear"], k)
             cube.extra_coords.add((f"lon{k}", f"lat{k}"), tuple(ec["axis"]),
-                                  SkyCoord(v * u.deg / 10, (v / 2 - 5 + np.arange(n) % 2) * u.deg / 10, **sky_frame(case, k)), mesh=True)
+                                  SkyCoord(*other_angle_units(v * u.deg / 10, (v / 2 - 5 + np.arange(n) % 2) * u.deg / 10, case["wseed"] + k), **sky_frame(case, k)), mesh=True)
             tabs.append(v)
             continue
         n = shape[ec["axis"]]
@@ -125,7 +135,7 @@ def build(case):
             # (a Time table in any of the usual scales: the instants, not the clock readings, must be kept)
             cube.extra_coords.add(f"t{k}", ec["axis"], Time("2020-01-01T00:00:00", scale=["utc", "tai", "tt"][case["wseed"] % 3]) + v * u.min)
         else:
-            cube.extra_coords.add((f"lon{k}", f"lat{k}"), ec["axis"], SkyCoord(v * u.deg / 10, (v / 2 - 5) * u.deg / 10, **sky_frame(case, k)), mesh=False)
+            cube.extra_coords.add((f"lon{k}", f"lat{k}"), ec["axis"], SkyCoord(*other_angle_units(v * u.deg / 10, (v / 2 - 5) * u.deg / 10, case["wseed"] + k), **sky_frame(case, k)), mesh=False)
         tabs.append(v)
     return cube, tabs
 
